@@ -17,6 +17,9 @@ import Mamba.Lemmas.DistanceICycles5
 import Mamba.Lemmas.DistanceBiconTotal
 import Mamba.Lemmas.DistancePatonTotal
 import Mamba.Lemmas.DistanceBiconCover
+import Mamba.Lemmas.DistanceBiconTree2
+import Mamba.Lemmas.DistanceBiconLow2
+import Mamba.Lemmas.DistanceBiconArt2
 /-!
 # C10 — property theorems
 
@@ -286,6 +289,92 @@ theorem bicon_blocks_cover_vertices_partial (g : G) (hsym : ∀ u v, g.adj u v =
     (bs : List (List Nat)) (arts : List Nat) (hres : Model.biconnectedComponents g = .ok (bs, arts)) :
     ∀ x, x < g.n → ∃ b ∈ bs, x ∈ b :=
   bicon_cover_vertices g hsym bs arts hres
+
+/-! ### DFS-tree theory of the `BiconnectedComponents` model
+
+`BicReach h com out0 st`: `st` is a state the `for len(toCheck) > 0` loop of the model goes through on the component
+graph `h` (`bicStep` is one iteration of that loop, `Lemmas/DistanceBiconStep.lean`: `bicLoop_succ`). `dI st x` is
+`depths[x]` (`-1` = unvisited), `tp` the parent function of the DFS tree (a ghost: `parents[x]` is overwritten by
+`-1` when the block of `x` is emitted). -/
+
+/-- (1) The stack `toCheck` is the tree path from the current vertex down to the root `0` (`StackPath`), and the
+discovery depths strictly increase along it (top first: strictly decreasing); every visited vertex other than the
+root hangs below its tree parent by a graph edge with depth one larger. -/
+theorem bicon_stack_is_root_path (h : G) (com : List Nat) (hsym : ∀ u v, h.adj u v = h.adj v u)
+    (hirr : ∀ v, h.adj v v = false) (hn : 0 < h.n) (out0 : List (List Nat))
+    (hout : ∀ b ∈ out0, b.Pairwise (fun a b => decide (a ≤ b) = true)) (st : Model.BicSt)
+    (hr : BicReach h com out0 st) :
+    ∃ tp : Nat → Nat, StackPath tp st.toCheck ∧
+      st.toCheck.Pairwise (fun up lw => dI st lw < dI st up) ∧
+      (∀ x, x < h.n → bvis st x → x ≠ 0 →
+        tp x < h.n ∧ bvis st (tp x) ∧ h.adj (tp x) x = true ∧ dI st x = dI st (tp x) + 1) := by
+  obtain ⟨tp, dt⟩ := dt_reach com hsym hirr hn out0 hout hr
+  exact ⟨tp, dt.path, dt.sdec, dt.tree⟩
+
+/-- (2) No cross edges: every edge between two visited vertices joins an ancestor and a descendant in the DFS tree;
+moreover a vertex that has left the stack has all its neighbours visited. -/
+theorem bicon_no_cross_edges (h : G) (com : List Nat) (hsym : ∀ u v, h.adj u v = h.adj v u)
+    (hirr : ∀ v, h.adj v v = false) (hn : 0 < h.n) (out0 : List (List Nat))
+    (hout : ∀ b ∈ out0, b.Pairwise (fun a b => decide (a ≤ b) = true)) (st : Model.BicSt)
+    (hr : BicReach h com out0 st) :
+    ∃ tp : Nat → Nat,
+      (∀ x y, x < h.n → y < h.n → bvis st x → bvis st y → h.adj x y = true → Anc tp x y ∨ Anc tp y x) ∧
+      (∀ x, x < h.n → bvis st x → x ∉ st.toCheck → ∀ w, h.adj x w = true → w < h.n → bvis st w) := by
+  obtain ⟨tp, dt⟩ := dt_reach com hsym hirr hn out0 hout hr
+  exact ⟨tp, dt.nocross, dt.fin⟩
+
+/-- (3) Lowpoints are correct: in every reachable state, for every vertex `x` that has left the stack, `lowpoints[x]`
+(`lo st x`) is the least discovery depth among `x` itself and the end points `a` of the edges `(z, a)` leaving a
+vertex `z` of the subtree of `x` other than the tree edge to the parent of `z` — it is a lower bound for all of them
+and it is attained; for the vertices still on the stack `lowpoints[x] = depths[x]`. -/
+theorem bicon_low_correct (h : G) (com : List Nat) (hsym : ∀ u v, h.adj u v = h.adj v u)
+    (hirr : ∀ v, h.adj v v = false) (hn : 0 < h.n) (out0 : List (List Nat))
+    (hout : ∀ b ∈ out0, b.Pairwise (fun a b => decide (a ≤ b) = true)) (st : Model.BicSt)
+    (hr : BicReach h com out0 st) :
+    ∃ tp : Nat → Nat,
+      (∀ x ∈ st.toCheck, lo st x = dI st x) ∧
+      (∀ x, x < h.n → bvis st x → lo st x ≤ dI st x) ∧
+      (∀ x, x < h.n → bvis st x → x ∉ st.toCheck → ∀ z a, z < h.n → Anc tp x z → bvis st z →
+        h.adj z a = true → a < h.n → a ≠ tp z → lo st x ≤ dI st a) ∧
+      (∀ x, x < h.n → bvis st x → x ∉ st.toCheck → lo st x = dI st x ∨
+        ∃ z a, z < h.n ∧ Anc tp x z ∧ bvis st z ∧ h.adj z a = true ∧ a < h.n ∧ a ≠ tp z ∧
+          lo st x = dI st a) := by
+  obtain ⟨tp, dt, la⟩ := dtla_reach com hsym hirr hn out0 hout hr
+  exact ⟨tp, dt.lostk, la.lole, la.lob, la.loatt⟩
+
+example : BicReach (ofEdges 2 [(0, 1)]) [0, 1] [] (bicInit 2 []) := BicReach.init  -- non-vacuity
+
+/-- (4a) The lowpoint criterion is the separation property. At the end of the DFS of a connected graph `h` (state
+`st`, DFS tree `tp`, `DFinal`: the invariants of (1)–(3), every vertex visited, stack empty) a vertex `i` satisfies
+the criterion the Go code tests — `i` is not the root and has a tree child `c` with `lowpoints[c] >= depths[i]`, or
+`i` is the root and has two different tree children — iff deleting `i` separates two other vertices of `h`
+(`SepIn`: they are joined by a walk, but by none avoiding `i`). -/
+theorem bicon_lowpoint_criterion (h : G) (st : Model.BicSt) (tp : Nat → Nat) (df : DFinal h st tp)
+    (hsym : ∀ u v, h.adj u v = h.adj v u) (i : Nat) (hi : i < h.n) :
+    Crit h st tp i ↔ SepIn h (List.range h.n) i :=
+  df.crit_iff_sep hsym hi
+
+/-- (4b) Deleting `v` increases the number of components of the subgraph on `V` (`isArticIn`, the definition behind
+`articulation g`) iff `v` separates two other vertices of `V`. -/
+theorem articulation_iff_separates (g : G) (hsym : ∀ u v, g.adj u v = g.adj v u) (V : List Nat) (v : Nat) :
+    isArticIn g V v = true ↔ SepIn g V v :=
+  isArticIn_iff_sep hsym V v
+
+/-- (4c) **Soundness of the articulation vertices of `BiconnectedComponents`**: for every simple graph (symmetric,
+irreflexive adjacency) every vertex the faithful model reports is an articulation vertex (`articulation g`: deleting
+it increases the number of connected components). -/
+theorem bicon_articulation_sound (g : G) (hsym : ∀ u v, g.adj u v = g.adj v u) (hirr : ∀ v, g.adj v v = false)
+    (bs : List (List Nat)) (arts : List Nat) (hres : Model.biconnectedComponents g = .ok (bs, arts)) :
+    ∀ x, x ∈ arts → x ∈ articulation g :=
+  fun x hx => ((bicon_articulation_eq g hsym hirr bs arts hres).2.1 x).1 hx
+
+/-- (4d) **Completeness**: every articulation vertex of `g` is reported by the faithful model, exactly once; hence
+the reported list, sorted (as the harness prints it), is exactly `articulation g`. -/
+theorem bicon_articulation_complete (g : G) (hsym : ∀ u v, g.adj u v = g.adj v u) (hirr : ∀ v, g.adj v v = false)
+    (bs : List (List Nat)) (arts : List Nat) (hres : Model.biconnectedComponents g = .ok (bs, arts)) :
+    (∀ x, x ∈ articulation g → x ∈ arts) ∧ arts.Nodup ∧ Model.sortInts arts = articulation g :=
+  have h := bicon_articulation_eq g hsym hirr bs arts hres
+  ⟨fun x hx => (h.2.1 x).2 hx, h.1, h.2.2⟩
 
 /-! ## Girth and cycle / path counts -/
 
